@@ -482,7 +482,13 @@ class QueryGen:
             es = [self.expr(ti, env, d - 1) for ti in t[1]]
             return gen.tup(*es) if t[2] == "tuple" else gen.lst(*es)
         if t[0] == "dict":
-            return gen.dct([(C(k), self.expr(ti, env, d - 1)) for k, ti in t[1]])
+            items = [(C(k), self.expr(ti, env, d - 1)) for k, ti in t[1]]
+            if self.r.random() < 0.15:
+                # a computed key that may coincide with a constant one: entries before it can no longer be projected
+                k, ti = self.r.choice(t[1])
+                ck = ast.IfExp(test=self.leaf(BOOL, env, self.vars_of(env, BOOL)), body=C(k), orelse=C("zz"))
+                items.insert(self.r.randrange(len(items) + 1), (ck, self.expr(ti, env, d - 1)))
+            return gen.dct(items)
         raise ValueError(t)
 
     def leaf(self, t, env, vs):
